@@ -72,10 +72,10 @@ Definition run (d : decomp) (v : view) : out :=
   | DCp w fs _, VEin VVec => rt (cp_to_vec_from_einsum Zops (validate_cp w fs) w fs)
   | DCp w fs _, VEin VNorm => match cp_normsq Zops w fs with Ok n => ONorm (inject_Z n) | Err => OErr end
   | DTucker c fs _ _, VEin VValidate => rsr (validate_tucker c fs)
-  | DTucker c fs skip tr, VEin VTensor => rt (tucker_to_tensor_einsum Zops c fs skip tr)
-  | DTucker c fs skip tr, VEin (VUnfolded m) => rt (tucker_to_unfolded_einsum Zops c fs m skip tr)
-  | DTucker c fs skip tr, VEin VVec => rt (tucker_to_vec_einsum Zops c fs skip tr)
-  | DTucker c fs _ _, VEin VNorm => rnorm (tucker_to_tensor_einsum Zops c fs None false)
+  | DTucker c fs skip tr, VEin VTensor => rt (tucker_to_tensor_einsum_b Zops c fs skip tr)
+  | DTucker c fs skip tr, VEin (VUnfolded m) => rt (tucker_to_unfolded_einsum_b Zops c fs m skip tr)
+  | DTucker c fs skip tr, VEin VVec => rt (tucker_to_vec_einsum_b Zops c fs skip tr)
+  | DTucker c fs _ _, VEin VNorm => rnorm (tucker_to_tensor_einsum_b Zops c fs None false)
   | DTtm cs, VEin VValidate => rsr (validate_ttm cs)
   | DTtm cs, VEin VTensor => rt (ttm_to_tensor_einsum Zops cs)
   | DTtm cs, VEin VMatrix => rt (ttm_to_matrix_einsum Zops cs)
